@@ -36,6 +36,13 @@ attributes stay as they are. Aim for 40-200 changed lines; it should look differ
 naive regression checker keyed on implementation details would trip over it, while a checker that judges the property
 itself must stay green.
 
+Deliberately EXPLOIT the freedom that the property and the documentation leave open (only what they state must keep
+holding): e.g. an undocumented numbering/ordering may change as long as it stays a valid one, the number of internal
+rebuilds/retries or the layout and names of temporary files may change, a different but equally valid triangle/half of
+a symmetric object may be the one that is computed, work may be split differently between threads, a cache may be keyed
+on something else as long as it never returns a wrong result, error conditions that were an accident of the old
+implementation may be reported differently.
+
 Requirements:
 1. The entire existing test suite still passes:
    `cd {W} && PYTHONPATH={W} XDG_CACHE_HOME={W}/.xdg MPLBACKEND=Agg /venv/bin/python -m pytest -q -p no:cacheprovider --timeout=900`
